@@ -58,6 +58,7 @@ type VerifGroupState struct {
 	ForceTracker []string
 	MinNodes     int
 	MaxNodes     int
+	SetBounds    bool // VerifSetState: also overwrite the remembered min / max node counts
 }
 
 // VerifState reads the controller memory of one node group.
@@ -100,6 +101,9 @@ func (c *Controller) VerifSetState(name string, st VerifGroupState) {
 	s.memCapacity = *resource.NewQuantity(st.MemCapBytes, resource.BinarySI)
 	s.taintTracker = append([]string(nil), st.TaintTracker...)
 	s.forceTaintTracker = append([]string(nil), st.ForceTracker...)
+	if st.SetBounds {
+		s.Opts.MinNodes, s.Opts.MaxNodes = st.MinNodes, st.MaxNodes
+	}
 }
 
 // VerifCalcPercentUsage exposes calcPercentUsage.
